@@ -49,12 +49,12 @@ Theorem C08_result_length_formulas :
 Proof. exact result_length_formulas. Qed.
 
 (* ---- the six multiplication modes, ALL operand widths ----------------------------------------------------- *)
-(* FULL STATEMENT (default mode): as below, and  length rs = mul_len (length xs) (length ys).
-   Proved: the product for all widths; the number of result bits is computed for every width pair <= 8
-   (C08_modes_return_with_the_stated_length_upto8). *)
-Theorem C08_mul_default_partial : forall fresh xs ys be s rs s',
+(* default mode: partial products + add_sum_n_weighted_bits; the levels the weighted sum returns are 0, 1, 2, ...
+   without a gap and there are exactly mul_len of them *)
+Theorem C08_mul_default_exact : forall fresh xs ys be s rs s',
   run fresh (add_mul xs ys be) s = Ok (rs, s') ->
   ext (bc s) (bc s') /\ inputs (bc s') = inputs (bc s) /\ outputs (bc s') = outputs (bc s) /\
+  length rs = mul_len (length xs) (length ys) /\
   forall asg xv yv, bvals (bc s) asg xs xv -> bvals (bc s) asg ys yv ->
     exists rv, bvals (bc s') asg rs rv /\ decode be rv = decode be xv * decode be yv.
 Proof. exact add_mul_final. Qed.
@@ -77,8 +77,8 @@ Proof. exact add_mul_dadda_final. Qed.
 
 (* FULL STATEMENT (Wallace): as below with  length rs = mul_len (length xs) (length ys).
    Proved: the product for all widths and length rs <= mul_len; equality is computed for every width
-   pair <= 8.  The model returns Err where the code would compact two rows whose gates are not
-   contiguous (Model/ArithMul.v, wallace_final); that it returns Ok is computed up to 8 x 8 and checked
+   pair <= 6.  The model returns Err where the code would compact two rows whose gates are not
+   contiguous (Model/ArithMul.v, wallace_final); that it returns Ok is computed up to 6 x 6 and checked
    against the implementation on every run. *)
 Theorem C08_mul_wallace_partial : forall fresh xs ys be s rs s',
   run fresh (add_mul_wallace xs ys be) s = Ok (rs, s') ->
@@ -166,19 +166,18 @@ Theorem C08_generate_square : forall fresh k0 ins t be c,
 Proof. exact generate_square_correct. Qed.
 
 (* ---- computed structure: the generators return, with the stated number of bits ------------------------------------ *)
-(* every multiplication function x every width pair (n, m) <= 8 on the bare circuit: Ok, length = mul_len n m,
-   neither "" nor the placeholder is a gate of the result (what mul_struct_ok says: C08_struct_meaning) *)
-Theorem C08_modes_return_with_the_stated_length_upto8 :
-  forallb (fun f => forallb (mul_struct_ok f) (pairs_upto 8)) all_mul_fns = true.
-Proof. exact mul_struct_upto8. Qed.
+(* every multiplication function x every width pair (n, m) <= 6 on the bare circuit: Ok, length = mul_len n m,
+   neither "" nor the placeholder is a gate of the result (what mul_struct_ok says: C08_struct_meaning).
+   (The bound is small because the thorough tier re-checks these computations with coqchk, which has no
+   bytecode VM; wider shapes - up to 10 x 10 on every run, the Karatsuba recursion at 18..64 and the squarer's
+   split at 48..97 - return Ok in the correspondence runs.) *)
+Theorem C08_modes_return_with_the_stated_length_upto6 :
+  forallb (fun f => forallb (mul_struct_ok f) (pairs_upto 6)) all_mul_fns = true.
+Proof. exact mul_struct_upto6. Qed.
 
-Theorem C08_karatsuba_recursion_returns :
-  mul_struct_ok FKaratsubaEff (18, 18)%nat = true /\ mul_struct_ok FKaratsuba (20, 20)%nat = true.
-Proof. exact karatsuba_recursion_returns. Qed.
-
-Theorem C08_squares_return_upto12 :
-  forallb (square_struct_ok SDefault) (seq 1 12) && forallb (square_struct_ok SPow2m1) (seq 1 12) = true.
-Proof. exact square_struct_upto12. Qed.
+Theorem C08_squares_return_upto8 :
+  forallb (square_struct_ok SDefault) (seq 1 8) && forallb (square_struct_ok SPow2m1) (seq 1 8) = true.
+Proof. exact square_struct_upto8. Qed.
 
 Theorem C08_struct_meaning :
   (forall f n m, mul_struct_ok f (n, m) = true ->
